@@ -37,6 +37,10 @@ Statuses(d) == IF d = 2 THEN {0, 1, 2, 3} ELSE {0}
 OpCases == {[kind |-> "op", code |-> e[1], name |-> e[2], dir |-> d, status |-> st, ver |-> v, enc |-> x, expect |-> IF e[2] \in Implemented THEN "typed" ELSE "opaque"] :
               e \in OpEnum, d \in {1, 2}, st \in {0, 1, 2, 3}, v \in 0..4, x \in Encodings}
            \cup {[kind |-> "op", code |-> k, name |-> "", dir |-> d, status |-> 0, ver |-> 4, enc |-> x, expect |-> "opaque"] : k \in OtherCodes, d \in {1, 2}, x \in Encodings}
+\* operations an application has registered payload types for (RegisterOperationPayload): code is an index into the driver's table of
+\* such operations - one of the vendor extension range, one between the standard enumeration and that range, one at the top of the
+\* range. Their payloads decode to the registered types like those of the library's own operations.
+OpRegCases == {[kind |-> "opreg", code |-> k, name |-> "", dir |-> d, status |-> 0, ver |-> 4, enc |-> x, expect |-> "typed"] : k \in 1..3, d \in {1, 2}, x \in Encodings}
 ObjCases == {[kind |-> "obj", code |-> Pinned.objecttype_enum[i][1], name |-> Pinned.objecttype_enum[i][2], dir |-> 2, enc |-> x, expect |-> "typed"] :
                i \in Idx(Pinned.objecttype_enum), x \in Encodings}
             \cup {[kind |-> "obj", code |-> k, name |-> "", dir |-> 2, enc |-> x, expect |-> "error"] : k \in {10, 11, 153, 2147483647}, x \in Encodings}
@@ -60,7 +64,7 @@ SrcExpect(k, f, a, content) == LET g == Governing(k, f, a) IN IF g \in ObjCodes 
 ObjSrcCases == {[kind |-> "objsrc", carrier |-> k, field |-> f, attr |-> a, content |-> ct, code |-> Governing(k, f, a), name |-> "", dir |-> 0, enc |-> x,
                  expect |-> SrcExpect(k, f, a, ct)] :
                   k \in Carriers, f \in {2, 4, 7, 127}, a \in {0, 2, 3, 7}, ct \in {2, 3, 4, 7}, x \in Encodings}
-Cases == {o \in OpCases : o.status \in Statuses(o.dir) /\ (o.ver = 4 \/ o.status = 0)} \cup ObjCases \cup AttrCases \cup {o \in ObjSrcCases : (HasField(o.carrier) \/ o.field = 2) /\ (HasAttrs(o.carrier) \/ o.attr = 0) /\ o.content \in {o.field, o.attr}}
+Cases == {o \in OpCases : o.status \in Statuses(o.dir) /\ (o.ver = 4 \/ o.status = 0)} \cup OpRegCases \cup ObjCases \cup AttrCases \cup {o \in ObjSrcCases : (HasField(o.carrier) \/ o.field = 2) /\ (HasAttrs(o.carrier) \/ o.attr = 0) /\ o.content \in {o.field, o.attr}}
 Init == c \in Cases
 Next == UNCHANGED c
 Spec == Init /\ [][Next]_c
